@@ -68,6 +68,7 @@ type TV struct {
 // frame: one activation of an SSA function body
 type frame struct {
 	fx      *fnExec
+	fparamStrong map[string]string // strong(...) of the method values passed to the call being applied
 	fn      *ssa.Function
 	c       *Contract // loop contracts (nil for inlined closures)
 	vals    map[ssa.Value]Val
